@@ -52,12 +52,16 @@ def fill_kind(target, kind, x, refs, schema):
         target.SetInParent()
 
 
-def plain_present(f, x):
+def plain_present(f, x, schema=None):
     """does a plain (no optional, no oneof) message-typed field given this value count as
     present?  betterproto cannot express 'present but default' there: Sub() / epoch / zero
-    timedelta in a plain field MEAN 'not set' (they are not serialised), in both worlds"""
+    timedelta in a plain field MEAN 'not set' (they are not serialised), in both worlds —
+    except for a message type WITHOUT fields, whose only content is its presence: assigning
+    an instance of it marks it present (`Message.__setattr__`)"""
     if x[0] in ("t", "d"):
         return x[1] != 0
+    if schema is not None and x[0] == "c" and not schema[x[1]].fields:
+        return True
     return bool(x[2])
 
 
@@ -92,7 +96,7 @@ def to_ref(v, refs, schema):
                 w.SetInParent()
             elif x[0] == "N":
                 continue
-            elif f.optional or f.group is not None or plain_present(f, x):
+            elif f.optional or f.group is not None or plain_present(f, x, schema):
                 fill_kind(getattr(r, f.name), f.kind, x, refs, schema)
         else:
             if x[0] == "N":
